@@ -8,6 +8,7 @@ import Rpcx.Driver.FailMode
 import Rpcx.Driver.Fanout
 import Rpcx.Driver.Discovery
 import Rpcx.Driver.Mux
+import Rpcx.Driver.Server
 /-
   Line-protocol driver: one operation per input line, one canonical output line per
   operation.  Runs the executable definitions of the model (generated and hand-written);
@@ -30,6 +31,7 @@ def step (line : String) : String :=
   | "fan" :: ws => cmdFan ws
   | "filter" :: ws => cmdFilter ws
   | "mux" :: ws => cmdMux ws
+  | "srv" :: ws => cmdSrv ws
   | _ => "bad-op"
 
 partial def loop (hin : IO.FS.Stream) (hout : IO.FS.Stream) : IO Unit := do
